@@ -196,6 +196,40 @@ func Size(p *Program) int {
 	return total
 }
 
+// IsCyclic: some task reaches itself through deps / task: commands.
+func IsCyclic(p *Program) bool {
+	refs := func(n string) []string {
+		var out []string
+		t := p.Tasks[n]
+		for _, d := range t.Deps {
+			out = append(out, d.Task)
+		}
+		for _, c := range t.Cmds {
+			if c.CS != nil {
+				out = append(out, c.CS.Task)
+			}
+		}
+		return out
+	}
+	for _, start := range p.Order {
+		seen := map[string]bool{}
+		stack := refs(start)
+		for len(stack) > 0 {
+			n := stack[len(stack)-1]
+			stack = stack[:len(stack)-1]
+			if n == start {
+				return true
+			}
+			if seen[n] {
+				continue
+			}
+			seen[n] = true
+			stack = append(stack, refs(n)...)
+		}
+	}
+	return false
+}
+
 // Features lists what a program exercises (for the evidence file).
 func Features(p *Program) []string {
 	f := map[string]bool{}
@@ -402,6 +436,15 @@ func Core() []*Program {
 			"e": {Run: "once", Cmds: []Cmd{sh(0)}},
 		}))
 	}
+	// cyclic references: through deps, through task: commands, mixed, and through a run: once task
+	add(mk("cycle-deps", 0, []string{"a", "b"}, map[string]*Task{
+		"a": {Deps: []CallSite{dep("b")}, Cmds: []Cmd{sh(0)}}, "b": {Deps: []CallSite{dep("a")}, Cmds: []Cmd{sh(0)}}}))
+	add(mk("cycle-calls", 2, []string{"a", "b", "c"}, map[string]*Task{
+		"a": {Cmds: []Cmd{call("b", "")}}, "b": {Cmds: []Cmd{call("c", "")}}, "c": {Cmds: []Cmd{call("a", "")}}}))
+	add(mk("cycle-mixed", 1, []string{"a", "b"}, map[string]*Task{
+		"a": {Deps: []CallSite{dep("b")}, Cmds: []Cmd{sh(0)}}, "b": {Cmds: []Cmd{call("a", "")}}}))
+	add(mk("cycle-once", 0, []string{"a", "b"}, map[string]*Task{
+		"a": {Run: "once", Deps: []CallSite{dep("b")}, Cmds: []Cmd{sh(0)}}, "b": {Deps: []CallSite{dep("a")}, Cmds: []Cmd{sh(0)}}}))
 	// two roots, sequential and parallel
 	for _, par := range []bool{false, true} {
 		p := mk(fmt.Sprintf("two-roots-par%v", par), 2, []string{"a", "b", "c"}, map[string]*Task{
